@@ -667,6 +667,14 @@ class StmtMixin:
             if is_exc(it):
                 outs.append(self.exc_out(s2, it))
                 continue
+            if isinstance(it, SVal) and isinstance(it.kind, KOpt):
+                # iterating an optional: None is a TypeError, otherwise the value
+                tt, ff = self.fork(s2, z3.Not(it.t[0]))
+                if ff is not None:
+                    outs.append(self.exc_out(ff, ExcVal('TypeError')))
+                if tt is not None:
+                    outs += self.for_over(s, tt, fr, SVal(it.kind.inner, it.t[1:]))
+                continue
             outs += self.for_over(s, s2, fr, it)
         return outs
 
